@@ -24,6 +24,18 @@ ALLKINDS = ["on", "on_ranged", "on_all", "off", "off_ranged", "off_all", "cycle"
             "status_beacon", "status_beacon_all", "ping"]
 
 
+LINE = 'expect "([^ \\n]+) ([A-Za-z0-9]+)\\n"'
+GEN2 = {
+    "status_all": 'send "STATUS_ALL\\n"\n\t\tforeachnode {\n\t\t\t%s\n\t\t\tsetplugstate $1 $2 on="O" off="OFF"\n\t\t}\n\t\texpect "done\\n"' % LINE,
+    "status": 'send "STATUS %%s\\n"\n\t\t%s\n\t\tsetplugstate $2 off="OFF" on="O"\n\t\texpect "done\\n"' % LINE,
+    "cycle": 'send "Q %%s\\n"\n\t\t%s\n\t\tsetplugstate $1 $2 on="ON" off="OFF"\n\t\tifon {\n\t\t\tsend "OFF %%s\\n"\n\t\t\texpect "done\\n"\n\t\t}\n\t\tifoff {\n\t\t\tsend "ON %%s\\n"\n\t\t\texpect "done\\n"\n\t\t}\n\t\tsend "CYCLED %%s\\n"\n\t\texpect "done\\n"' % LINE,
+    "on_all": 'foreachplug {\n\t\t\tsend "ON1 %%s\\n"\n\t\t\t%s\n\t\t\tsetresult $1 $2 success="OK"\n\t\t}\n\t\texpect "done\\n"' % LINE,
+    "off_ranged": 'send "OFFR %%s\\n"\n\t\tforeachnode {\n\t\t\t%s\n\t\t\tsetplugstate $1 $2 on="ON" off="OFF"\n\t\t\tifon {\n\t\t\t\tsend "KILL %%s\\n"\n\t\t\t\tdelay 0.5\n\t\t\t}\n\t\t}\n\t\texpect "done\\n"' % LINE,
+    "reset_all": 'send "RESET_ALL\\n"\n\t\tforeachnode {\n\t\t\t%s\n\t\t\tsetresult $1 $2 success="OK" success="ON"\n\t\t}\n\t\texpect "done\\n"' % LINE,
+    "status_temp_all": 'send "TEMP_ALL\\n"\n\t\tforeachplug {\n\t\t\t%s\n\t\t\tsetplugstate $1 $2\n\t\t}\n\t\texpect "done\\n"' % LINE,
+}
+
+
 def gen_case(rng, consts, style):
     """one configuration (1-2 devices with random or generated scripts) + an op sequence"""
     cfg = pmgen.Config()
@@ -34,13 +46,18 @@ def gen_case(rng, consts, style):
         name = "d%d" % di
         nk = rng.randint(2, 7)
         kinds = ["login"] + rng.sample(ALLKINDS, nk if style == "random" else rng.randint(8, 16))
+        if style == "gen2":
+            kinds = ["login"] + list(dict.fromkeys([k for k in GEN2 if not (k == "status" and rng.random() < 0.5)] + rng.sample(ALLKINDS, 3)))
         nplugs = rng.randint(1, 4)
         hard = rng.random() < 0.5
         pn = ["p%d" % (k + 1) for k in range(nplugs + (rng.choice([0, 1]) if hard else 0))]
         d = pmgen.Dev(name, kinds, hardwired=pn if hard else None, timeout=rng.choice([2.0, 5.0, 1.5]), ping=rng.choice([0, 0, 0, 3.0]))
         asts[name] = {}
         for k in kinds:
-            if style == "random" and not (k == "login" and rng.random() < 0.7):
+            if style == "gen2" and k in GEN2:
+                d.bodies[k] = GEN2[k]
+                asts[name][k] = pmgen.parse_script_text(GEN2[k])
+            elif style == "random" and not (k == "login" and rng.random() < 0.7):
                 body = pmgen.random_script(rng, k)
                 d.bodies[k] = "\n".join(s.text() for s in body).lstrip("\t")
                 asts[name][k] = body
@@ -67,12 +84,12 @@ def gen_case(rng, consts, style):
             t = rng.sample(nodes, rng.randint(1, len(nodes)))
             if rng.random() < 0.15: t = t + [t[0]]
             ops.append("NEWARGS " + ",".join(x.encode().hex() for x in t))
-            w = rng.choice(words)
+            w = rng.choice(words) if style != "gen2" or rng.random() < 0.3 else rng.choice(["cycle", "cycle", "status", "status", "off", "on", "reset", "temp"])
             ops.append("ENQ %d %d %d %d %s" % (consts[pmgen.KINDS[pmgen.CLIENT_COMS[w]]], rng.randint(1, 3), rng.choice([0, 1]), nargs, ",".join(x.encode().hex() for x in t)))
             nargs += 1
         elif r < 0.62:
             di = rng.randrange(ndev)
-            if style == "gen" and rng.random() < 0.8:
+            if style in ("gen", "gen2") and rng.random() < 0.8:
                 # a device that answers the generated scripts: one line per plug with a verdict, then the terminators
                 d = cfg.devs[di]
                 pn = d.hardwired if d.hardwired is not None else expand_plugs(cfg, d.name)
@@ -99,6 +116,49 @@ def gen_case(rng, consts, style):
         ops.append("NOW %d" % now)
         ops.append("PASS")
     return cfg, asts, ops
+
+
+def directed_cases(consts):
+    """hand-made histories aimed at the case splits of the proofs and at the repaired defects (run first)"""
+    out = []
+
+    def one(bodies, ops_mid, hard=("p1", "p2", "p3"), nodes=("n0", "n1"), tele=1, word="cycle", targets=("n0",)):
+        cfg = pmgen.Config()
+        kinds = ["login"] + [k for k in bodies if k != "login"]
+        d = pmgen.Dev("d0", kinds, hardwired=list(hard), timeout=5.0)
+        asts = {"d0": {}}
+        for k in kinds:
+            if k in bodies:
+                d.bodies[k] = bodies[k]
+            asts["d0"][k] = pmgen.parse_script_text(bodies.get(k, pmgen.script_text(k)))
+        cfg.devs.append(d)
+        cfg.node_lines.append((",".join(nodes), "d0", ",".join(hard[:len(nodes)])))
+        hx = lambda x: x.encode("latin-1").hex()
+        ops = ["NOW 1000000", "PLAN 0 now now now now", "INIT", "PASS", "FEED 0 " + hx("ready\n"), "NOW 1100000", "PASS",
+               "NEWARGS " + ",".join(hx(t) for t in targets),
+               "ENQ %d 1 %d 0 %s" % (consts[pmgen.KINDS[pmgen.CLIENT_COMS[word]]], tele, ",".join(hx(t) for t in targets))]
+        t = 1200000
+        for o in ops_mid:
+            if o is None:
+                t += 100000; ops += ["NOW %d" % t, "PASS"]
+            elif isinstance(o, int):
+                t += o; ops += ["NOW %d" % t, "PASS"]
+            elif o == "CLOSE":
+                ops.append("PEERCLOSE 0")
+            else:
+                ops.append("FEED 0 " + hx(o))
+        out.append((cfg, asts, ops))
+
+    for verdict in ["ON", "OFF", "XX"]:
+        one({"cycle": GEN2["cycle"]}, [None, None, "p1 %s\n" % verdict, None, None, "done\n", None, None, "done\n", None, None])
+    one({"status_all": GEN2["status_all"]}, [None, None, "p1 OFF\np2 ON\np3 ON\ndone\n", None, None], word="status", targets=("n0", "n1"))
+    one({"status_all": GEN2["status_all"]}, [None, None, "p1 O\n", None, "p2 OFFX\n", None, "done\n", None], word="status", targets=("n1",))
+    one({"on": 'send "ON %s\\n"\n\t\texpect "plug ([0-9]*):(ON|OFF)"\n\t\tsetplugstate $1 $2 on="ON"\n\t\tsetresult $1 $2 success="ON"'}, [None, None, "plug :ON", None, None], word="on")
+    one({"on": 'send "ON %s\\n"\n\t\texpect "x([^y]*)y"\n\t\texpect "done"'}, [None, None, "x\x80\xff\x00\x01y", None, "zz", 6000000, None], word="on")
+    one({"on": 'send "AAAA %s\\n"\n\t\tdelay 1.0\n\t\tforeachplug {\n\t\t\tsend "B %s\\n"\n\t\t\texpect "ok"\n\t\t}'}, [None, "CLOSE", None, 1000000, None, "ready\n", None, None, 1000000, None, "ok", None, "ok", None, "ok", None, None], word="on")
+    one({"login": 'setplugstate $1 $2 on="ON"\n\t\tsend "LOGIN\\n"\n\t\texpect "ready\\n"', "on": pmgen.script_text("on")}, [None, None, "p1 OK\ndone\n", None, None], word="on")
+    one({"login": 'send "LOGIN\\n"\n\t\tforeachplug {\n\t\t\tifon {\n\t\t\t\tsend "x"\n\t\t\t}\n\t\t}\n\t\texpect "ready\\n"', "on": pmgen.script_text("on")}, [None, None, "p1 OK\ndone\n", None, 6000000, None], word="on")
+    return out
 
 
 def expand_plugs(cfg, devname):
@@ -161,13 +221,13 @@ def run(ctx, V):
     devh = build_dev(ctx)
     enq = C01.build_enq(ctx)
     model = build_model(ctx)
-    n = 300 if ctx.tier == "quick" else 6000
+    n = 420 if ctx.tier == "quick" else 6000
     V.rule = ("R-DEV: generated configurations with random scripts over the whole statement grammar (and the structured generated specs), "
               "op sequences (connect plans, requests, device bytes from a pool matching the expect pool, peer close, clock steps) run through the real "
               "dev_initial_connect/dev_enqueue_actions/dev_pre_poll/poll/dev_post_poll with stub transports and through Model.DevHarness; compared after every pass: "
               "callbacks with their text, bytes written, requested time-out, every device's state, queue, exec stacks, buffers, every Arg; "
               "non-trivial = at least one completion callback or written byte")
-    cases = [gen_case(ctx.rng, consts, "random" if i % 3 else "gen") for i in range(n)]
+    cases = directed_cases(consts) + [gen_case(ctx.rng, consts, ["random", "gen", "gen2"][i % 3]) for i in range(n)]
     with ThreadPoolExecutor(16) as ex:
         outs = list(ex.map(lambda ic: (run_impl(devh, ctx.scratch, ic[0], ic[1][0], ic[1][2]), devtab_from_enq(enq, ctx.scratch, ic[0], ic[1][0])), enumerate(cases)))
         minputs = []
